@@ -88,6 +88,8 @@ def plan(tier, seed, kf_ids):
         code = "#[kani::proof]\n#[kani::unwind(6)]\npub fn %s() {%s\n}" % (name, body)
         jobs.append(Job(name, code, "powi/pow conventions and small exponents on I9F23 (all operands): " + name, timeout=1800,
                         inst="powi I9F23", bounds="all 2^32 operands"))
+        if name == "c15_powi_sq_i9f23":
+            jobs[-1].prio = 9    # 1.5-10 min depending on the load: decided last
     return {
         "feature": "c15",
         "jobs": jobs,
